@@ -16,6 +16,7 @@ Definition E_MISMATCH : N := 3.
 Definition E_TOO_FAST : N := 4.
 Definition E_BELOW_MIN : N := 5.
 Definition E_ABOVE_MAX : N := 6.
+Definition E_ILLFORMED : N := 7.
 
 (* panic sites = source lines at the pinned commit (informational) *)
 Definition S_TAU_MUL_S : N := 968.
@@ -148,7 +149,8 @@ Definition limit_step (is_inc check_max : bool) (tau actual : N) (st : N * N)
     if actual <=? total' then
       inr (if check_max then Ok tt else Err E_BELOW_MIN)
     else inl (curr', total')
-  else inr (Panic S_LIMIT_OVERFLOW).
+  else (* limit exceeds U256::MAX (fix commit: no longer a panic) *)
+    inr (if check_max then Ok tt else Err E_BELOW_MIN).
 
 Definition run_group (g : group) (check_max : bool) (tau actual : N) (st : N * N)
   : (N * N) + res unit :=
@@ -165,11 +167,13 @@ Definition check_total_difficulty_limit
       match run_group (d_end d) check_max tau actual st1 with
       | inr r => r
       | inl (_, total) =>
-          let* bound := add256 S_LIMIT_FINAL_ADD total unaligned in
-          if check_max then
-            if actual <=? bound then Ok tt else Err E_ABOVE_MAX
-          else
-            if bound <=? actual then Ok tt else Err E_BELOW_MIN
+          if total + unaligned <=? U256MAX then
+            let bound := total + unaligned in
+            if check_max then
+              if actual <=? bound then Ok tt else Err E_ABOVE_MAX
+            else
+              if bound <=? actual then Ok tt else Err E_BELOW_MIN
+          else if check_max then Ok tt else Err E_BELOW_MIN
       end
   end.
 
@@ -182,13 +186,17 @@ Definition verify_tau (se : epoch) (sct sbd : N) (ee : epoch) (ect ebd : N) (tau
   else
     let* sed := mul256 S_TAU_MUL_S sbd (e_len se) in
     let* eed := mul256 S_TAU_MUL_E ebd (e_len ee) in
-    let* cnt := sub_chk S_TAU_SUB (e_num ee) (e_num se) in
+    if e_num ee <? e_num se then Err E_COMPACT_TARGET (* checked_sub, fix commit *) else
+    let cnt := e_num ee - e_num se in
     Ok (check_tau (trend_new sed eed) tau cnt).
 
 Definition verify_total_difficulty
   (se : epoch) (sbd std : N) (ee : epoch) (ebd etd : N) (tau : N) : res unit :=
   if etd <? std then Err E_DECREASED else
   let total := etd - std in
+  (* guard added by the fix commit: unordered or ill-formed epochs are an error *)
+  if orb (orb (e_num ee <? e_num se) (andb (e_num se =? e_num ee) (e_idx ee <? e_idx se)))
+         (e_len se <=? e_idx se) then Err E_ILLFORMED else
   if e_num se =? e_num ee then
     let* cnt := sub_chk S_TD_IDX_SUB (e_idx ee) (e_idx se) in
     let* calc := mul256 S_TD_MUL sbd cnt in
